@@ -127,6 +127,13 @@ def scan_assumptions(gen_text):
                     hops += 1
                     continue
                 break
+            if tag == 'untagged':
+                # no tag directly above: name the nearest tagged comment further up (items are declared in tagged groups)
+                for k2 in range(i - 1, max(-1, i - 400), -1):
+                    mt = re.search(r'//.*\[(trusted|kani):\s*([^\]]*)\]?', lines[k2])
+                    if mt:
+                        tag = f'group {mt.group(1)}: {mt.group(2).strip()}'
+                        break
             out.append({'construct': name, 'line': i + 1, 'on': target[:150], 'tag': tag})
     return out
 
